@@ -51,6 +51,19 @@
                          from inside the first part to inside the last (`runSlice`), and decoding that
                          slice (`decodeRun`) gives the node's value
     C17_span_of_every_node   all of it, for every path at once
+  THE BYTES AROUND THE SPANS (Lemmas/LexDelims*.lean: delimiters of every token of the tokenizer;
+  Lemmas/SpanDesc*.lean: the loop invariant links an end tag to the start tag through `open_prefixes`;
+  Lemmas/SpanSliceDelims.lean):
+    C17_slice_element_end_name   for an element closed by an end tag the `ElementEnd` slice is `</` ++ the
+                         qualified name EXACTLY AS THE START TAG WROTE IT (the `ElementStart` slice) ++ white
+                         space ++ `>`; for an empty-element tag it is `/>` (_source: on slices only)
+    C17_slice_comment_delimiters, C17_slice_pi_delimiters   the source reads `<!--` body `-->` resp. `<?` target,
+                         white space, data, `?>` around the recorded spans (as a decomposition of the text
+                         and as `str::get` of the bytes directly before / after the spans)
+    C17_run_mode_from_source   the run behind a text node starts with a CDATA token iff the nine bytes in front
+                         of the `Text` span are `<![CDATA[` (`cdataOpenBefore`, the harness oracle's test)
+    C17_decode_text_from_source   hence: decoding the `Text` slice, the start mode read off the source, gives the
+                         node's value - a statement about the source, the span and the value only
   ERRORS ON STRINGS (Lemmas/SpanDescErr.lean): for every string rejected with
     C17_error_invalidTarget   `InvalidTarget(target, span)`: `span` is the target span of a PI token of the text,
                          slices the text to `target`, and `target` is `xml` in some letter case
@@ -70,6 +83,8 @@ import XotModel.Lemmas.LexSliceOrder
 import XotModel.Lemmas.LexCanon
 import XotModel.Model.ParseString
 import XotModel.Lemmas.SpanSliceNode
+import XotModel.Lemmas.SpanSliceDelims
+import XotModel.Lemmas.SpanDelimWitness
 import XotModel.Lemmas.SpanDescErr
 import XotModel.Lemmas.SpanDescWitness
 import XotModel.Lemmas.ColonWitness
@@ -529,6 +544,180 @@ example (a c : StrSpan) (w : StrSpan) :
     runSlice [.cdata c w, .text a] = c.text ++ ([']', ']', '>'] ++ a.text) ∧
     runSlice [.cdata c w] = c.text ∧ runSlice [.text a] = a.text := by
   simp [runSlice, runSliceAux, Lex.litCdataOpen, Lex.litCdataClose]
+
+/-! ### The bytes around the spans -/
+
+/-- C17_slice_element_end_name.  The element at `q` was opened by an `ElementStart` token `pfx:loc` (name
+    written in full, its span recorded as `ElementStart`, slicing to the qualified name AS WRITTEN) and
+    closed by an `ElementEnd` token whose whole span is recorded as `ElementEnd`: either the `/>` of an
+    empty-element tag, or an end tag `</pe:le ws>` whose prefix and local name are those of the START
+    tag, character for character (`close_element`: same name id and `open_prefixes.last() == prefix`;
+    C02_endtag_as_written / C03_reject_endtag_prefix at the level of the accepted string) - so the slice
+    reads `</`, the name exactly as the start tag wrote it, optional white space, `>`. -/
+theorem C17_slice_element_end_name {m : Mode} {env : Env} {s : Str} {p : Parsed} (h : parseString m env s = .ok p)
+    {q : Path} {id : Nat} {ks : List Tree} (hat : p.tree.at? q = some (.node (.element id) ks)) :
+    ∃ pfx loc wsp, Token.elementStart pfx loc wsp ∈ (lexMode m s).1 ∧ WholeName pfx loc ∧
+      (∃ sp, p.spans.get ⟨q, .elementStart⟩ = some sp ∧
+        sliceBytes s sp.start sp.stop = some (tokQName pfx.text loc.text)) ∧
+      ∃ e esp, Token.elementEnd e esp ∈ (lexMode m s).1 ∧
+        (∃ sp, p.spans.get ⟨q, .elementEnd⟩ = some sp ∧ sliceBytes s sp.start sp.stop = some esp.text) ∧
+        ((e = .empty ∧ esp.text = ['/', '>']) ∨
+         ∃ pe le ws, e = .close pe le ∧ pe.text = pfx.text ∧ le.text = loc.text ∧
+           (∀ c ∈ ws, isXmlSpace c = true) ∧
+           esp.text = '<' :: '/' :: (tokQName pfx.text loc.text ++ ws ++ ['>'])) := by
+  obtain ⟨pfx, loc, wsp, hmem, hstart, hend⟩ := parseString_element_end h hat
+  exact ⟨pfx, loc, wsp, hmem, C17_names_whole h hmem rfl, hstart, hend⟩
+
+/-- … on slices only: what `ElementEnd` slices to, in terms of what `ElementStart` slices to. -/
+theorem C17_slice_element_end_name_source {m : Mode} {env : Env} {s : Str} {p : Parsed}
+    (h : parseString m env s = .ok p)
+    {q : Path} {id : Nat} {ks : List Tree} (hat : p.tree.at? q = some (.node (.element id) ks)) :
+    ∃ name spS spE, p.spans.get ⟨q, .elementStart⟩ = some spS ∧ sliceBytes s spS.start spS.stop = some name ∧
+      p.spans.get ⟨q, .elementEnd⟩ = some spE ∧
+      (sliceBytes s spE.start spE.stop = some ['/', '>'] ∨
+       ∃ ws, (∀ c ∈ ws, isXmlSpace c = true) ∧
+         sliceBytes s spE.start spE.stop = some ('<' :: '/' :: (name ++ ws ++ ['>']))) := by
+  obtain ⟨pfx, loc, wsp, _, _, ⟨spS, hgS, hsS⟩, e, esp, _, ⟨spE, hgE, hsE⟩, hcase⟩ := C17_slice_element_end_name h hat
+  refine ⟨_, spS, spE, hgS, hsS, hgE, ?_⟩
+  rcases hcase with ⟨_, ht⟩ | ⟨pe, le, ws, _, _, _, hws, ht⟩
+  · exact .inl (by rw [hsE, ht])
+  · exact .inr ⟨ws, hws, by rw [hsE, ht]⟩
+
+/-- C17_slice_comment_delimiters.  Around the `Comment` span the source reads `<!--` body `-->`: the text is
+    `a ++ "<!--" ++ w ++ "-->" ++ b` with the span covering exactly `w` (whose line-end normalisation is
+    the node's value); in terms of `str::get`: the four bytes in front of the span are `<!--`, the three
+    bytes behind it `-->`. -/
+theorem C17_slice_comment_delimiters {m : Mode} {env : Env} {s : Str} {p : Parsed} (h : parseString m env s = .ok p)
+    {q : Path} {v : Str} {ks : List Tree} (hat : p.tree.at? q = some (.node (.comment v) ks)) :
+    ∃ w sp, p.spans.get ⟨q, .comment⟩ = some sp ∧ sliceBytes s sp.start sp.stop = some w ∧
+      v = normalizeLineEnds w ∧
+      (∃ a b, s = a ++ ['<', '!', '-', '-'] ++ w ++ ['-', '-', '>'] ++ b ∧ sp.start = strLen a + 4 ∧
+        sp.stop = sp.start + strLen w) ∧
+      4 ≤ sp.start ∧ sliceBytes s (sp.start - 4) sp.start = some ['<', '!', '-', '-'] ∧
+      sliceBytes s sp.stop (sp.stop + 3) = some ['-', '-', '>'] := by
+  obtain ⟨w, hb, hv⟩ := parseString_comment_delims h hat
+  obtain ⟨sp', hg', hs'⟩ := hb.slicesTo
+  obtain ⟨sp, hg, h4, hbefore, hafter⟩ := hb.around
+  obtain ⟨sp2, a, b, hg2, hsrc, hst, hstop⟩ := hb
+  rw [hg] at hg' hg2
+  have e1 : sp = sp' := Option.some.inj hg'
+  have e2 : sp = sp2 := Option.some.inj hg2
+  subst e1 e2
+  have e4 : strLen Lex.litCommentOpen = 4 := by decide
+  have e3 : strLen Lex.litCommentClose = 3 := by decide
+  rw [e4] at h4 hbefore hst
+  rw [e3] at hafter
+  exact ⟨w, sp, hg, hs', hv, ⟨a, b, hsrc, hst, hstop⟩, h4, hbefore, hafter⟩
+
+/-- C17_slice_pi_delimiters.  Around the spans of the PI at `q` the source reads `<?`, the target (`PiTarget`),
+    white space `ws`, the data as written `body` (`PiContent`, when the node has data: `body` is not empty
+    then, and the node's data is its line-end normalisation; without data `body` is empty and `ws` may be),
+    `?>`.  In terms of `str::get`: `<?` stands directly in front of the target span; with data, the white
+    space fills the gap between the two spans and `?>` follows the content span directly. -/
+theorem C17_slice_pi_delimiters {m : Mode} {env : Env} {s : Str} {p : Parsed} (h : parseString m env s = .ok p)
+    {q : Path} {id : Nat} {d : Option Str} {ks : List Tree} (hat : p.tree.at? q = some (.node (.pi id d) ks)) :
+    ∃ target ws body a b, (∀ c ∈ ws, isXmlSpace c = true) ∧
+      s = a ++ ['<', '?'] ++ target ++ ws ++ body ++ ['?', '>'] ++ b ∧
+      (∃ sp, p.spans.get ⟨q, .piTarget⟩ = some sp ∧ sp.start = strLen a + 2 ∧ sp.stop = sp.start + strLen target ∧
+        sliceBytes s (sp.start - 2) sp.start = some ['<', '?'] ∧
+        sliceBytes s sp.stop (sp.stop + strLen ws + strLen body + 2) = some (ws ++ body ++ ['?', '>'])) ∧
+      (∀ c, d = some c → c = normalizeLineEnds body ∧
+        ∃ sp, p.spans.get ⟨q, .piContent⟩ = some sp ∧ sp.start = strLen a + 2 + strLen target + strLen ws ∧
+          sp.stop = sp.start + strLen body ∧ sliceBytes s sp.stop (sp.stop + 2) = some ['?', '>']) ∧
+      (d = none → body = []) := by
+  obtain ⟨target, ws, body, a, b, hws, hsrc0, ⟨spT, hgT, hT1, hT2⟩, hcont, hnone⟩ := parseString_pi_delims h hat
+  have hsrc : s = a ++ ['<', '?'] ++ target ++ ws ++ body ++ ['?', '>'] ++ b := hsrc0
+  have e2 : strLen (['<', '?'] : Str) = 2 := by decide
+  have e3 : strLen (['?', '>'] : Str) = 2 := by decide
+  refine ⟨target, ws, body, a, b, hws, hsrc, ⟨spT, hgT, hT1, hT2, ?_, ?_⟩, fun c hc => ?_, hnone⟩
+  · have := sliceBytes_mid a ['<', '?'] (target ++ ws ++ body ++ ['?', '>'] ++ b)
+    have e : strLen a + 2 - 2 = strLen a := by omega
+    rw [e2] at this
+    rw [hT1, e, hsrc]
+    simp only [List.append_assoc] at this ⊢
+    exact this
+  · have := sliceBytes_mid (a ++ ['<', '?'] ++ target) (ws ++ body ++ ['?', '>']) b
+    rw [hT2, hT1, hsrc]
+    simp only [strLen_append, e2, e3] at this
+    simp only [List.append_assoc, Nat.add_assoc] at this ⊢
+    exact this
+  · obtain ⟨hc1, spC, hgC, hC1, hC2⟩ := hcont c hc
+    refine ⟨hc1, spC, hgC, hC1, hC2, ?_⟩
+    have := sliceBytes_mid (a ++ ['<', '?'] ++ target ++ ws ++ body) ['?', '>'] b
+    rw [hC2, hC1, hsrc]
+    simp only [strLen_append, e2, e3] at this
+    simp only [List.append_assoc, Nat.add_assoc] at this ⊢
+    exact this
+
+/-- C17_run_mode_from_source.  Whether the run behind the text node at `q` starts INSIDE a CDATA section
+    (its first token is a CDATA token, whose `<![CDATA[` lies in front of the recorded span) is determined
+    by the source: it does iff the nine bytes in front of the `Text` span are `<![CDATA[`
+    (`cdataOpenBefore s pos` = `s[..pos].ends_with("<![CDATA[")`, the test of the harness oracle).  A run that
+    starts with a text token starts at byte 0 or directly behind the `>` that ends the preceding token. -/
+theorem C17_run_mode_from_source {m : Mode} {env : Env} {s : Str} {p : Parsed} (h : parseString m env s = .ok p)
+    {q : Path} {v : Str} {ks : List Tree} (hat : p.tree.at? q = some (.node (.text v) ks)) :
+    ∃ run sp, run <:+: (lexMode m s).1 ∧ run ≠ [] ∧ (∀ t ∈ run, t.isCharData = true) ∧
+      p.spans.get ⟨q, .text⟩ = some sp ∧ sliceBytes s sp.start sp.stop = some (runSlice run) ∧
+      runValue run = some v ∧ startsInCdata run = cdataOpenBefore s sp.start := by
+  obtain ⟨run, sp, h1, h2, h3, h4, h5, h6, h7, _⟩ := parseString_text_mode h hat
+  exact ⟨run, sp, h1, h2, h3, h4, h5, h6, h7⟩
+
+/-- C17_decode_text_from_source: C17_slice_text with the decoder's start mode computed from the source.  A
+    statement about the text, the recorded span and the node's value only: slice the text with the `Text`
+    span, look whether `<![CDATA[` stands in front of it, decode - that is the value. -/
+theorem C17_decode_text_from_source {m : Mode} {env : Env} {s : Str} {p : Parsed} (h : parseString m env s = .ok p)
+    {q : Path} {v : Str} {ks : List Tree} (hat : p.tree.at? q = some (.node (.text v) ks)) :
+    ∃ sp w, p.spans.get ⟨q, .text⟩ = some sp ∧ sliceBytes s sp.start sp.stop = some w ∧
+      decodeRun (cdataOpenBefore s sp.start) w = some v := by
+  obtain ⟨run, sp, _, _, _, hg, hs, _, _, hdec⟩ := parseString_text_mode h hat
+  exact ⟨sp, runSlice run, hg, hs, hdec⟩
+
+/-- Non-vacuity, on `<p:a xmlns:p="u" b="x&#10;y">t&lt;<![CDATA[c]]><!--k--><?pi d?></p:a>` (accepted, see above):
+    `ElementEnd` = 63..69 slices to `</p:a>` = `</` ++ the `ElementStart` slice `p:a` (1..4) ++ `>`; the comment
+    body 51..52 stands between `<!--` and `-->`; the PI target 57..59 behind `<?`, the data 60..61 in front of
+    `?>`; in front of the `Text` span 29..44 stands `>`, not `<![CDATA[`. -/
+example : delimWitnessCheck (parseString .document Env.fresh (renderTokens sliceWitness)) = true := by
+  have e : lexMode .document (renderTokens sliceWitness) = (placeTokens 0 sliceWitness, none) :=
+    lexDocument_render sliceWitness (by decide)
+  unfold parseString
+  rw [e, build_eq_buildE]
+  decide +kernel
+
+example : sliceBytes (renderTokens sliceWitness) 1 4 = some ['p', ':', 'a'] ∧
+    sliceBytes (renderTokens sliceWitness) 63 69 = some ('<' :: '/' :: (['p', ':', 'a'] ++ [] ++ ['>'])) ∧
+    sliceBytes (renderTokens sliceWitness) 47 51 = some ['<', '!', '-', '-'] ∧
+    sliceBytes (renderTokens sliceWitness) 52 55 = some ['-', '-', '>'] ∧
+    sliceBytes (renderTokens sliceWitness) 55 57 = some ['<', '?'] ∧
+    sliceBytes (renderTokens sliceWitness) 59 60 = some [' '] ∧
+    sliceBytes (renderTokens sliceWitness) 61 63 = some ['?', '>'] ∧
+    cdataOpenBefore (renderTokens sliceWitness) 29 = false ∧
+    decodeRun false ['t', '&', 'l', 't', ';', '<', '!', '[', 'C', 'D', 'A', 'T', 'A', '[', 'c'] = some ['t', '<', 'c'] := by
+  decide +kernel
+
+/-- White space inside the end tag: `<a></a ␣⏎>` is accepted (tokenizer run step by step in the kernel,
+    Lemmas/SpanDelimWitness.lean); `ElementEnd` = 3..9 slices to `</` ++ `a` (the `ElementStart` slice 1..2)
+    ++ space, line feed ++ `>`. -/
+example : wsEndTagCheck (parseString .document Env.fresh wsEndTagText) = true := by
+  simp only [parseString, lexMode, lex_wsEndTag]
+  rw [build_eq_buildE]
+  decide +kernel
+example : sliceBytes wsEndTagText 1 2 = some ['a'] ∧
+    sliceBytes wsEndTagText 3 9 = some ('<' :: '/' :: (['a'] ++ [' ', '\n'] ++ ['>'])) ∧
+    (∀ c ∈ [' ', '\n'], isXmlSpace c = true) := by decide +kernel
+
+/-- … and on `<a><![CDATA[c]]>t</a>`: the text node `ct` has the span 12..17 (`c]]>t`), the nine bytes in front of
+    it are `<![CDATA[`, and decoding the slice from inside a section gives `ct`. -/
+example : LexOK false cdataFirstWitness = true := by decide
+example : cdataFirstCheck (parseString .document Env.fresh (renderTokens cdataFirstWitness)) = true := by
+  have e : lexMode .document (renderTokens cdataFirstWitness) = (placeTokens 0 cdataFirstWitness, none) :=
+    lexDocument_render cdataFirstWitness (by decide)
+  unfold parseString
+  rw [e, build_eq_buildE]
+  decide +kernel
+example : cdataOpenBefore (renderTokens cdataFirstWitness) 12 = true ∧
+    sliceBytes (renderTokens cdataFirstWitness) 12 17 = some ['c', ']', ']', '>', 't'] ∧
+    decodeRun true ['c', ']', ']', '>', 't'] = some ['c', 't'] := by
+  decide +kernel
 
 /-- C17_span_of_every_node: every element, attribute, text, comment and PI of an accepted tree has
     its spans (C17_total), and they satisfy C17_slice_element / _attribute / _text / _comment / _pi —
